@@ -49,7 +49,6 @@ Proof.
 Qed.
 
 Section Proofs.
-  Variable min_fee : imap -> result N.
   Variable ffi : imap -> utxo -> result N.
   Variable offered : list utxo.
   Hypothesis Woff : Forall (fun u => value_wf (u_val u)) offered.
